@@ -8,7 +8,7 @@ tails, duplicates and equal-hash subtrees are the norm rather than measure zero.
 """
 import random
 
-SIZES = {'u8': 1, 'u16': 2, 'u32': 4, 'u64': 8, 'u128': 16, 'u256': 32, 'h256': 32, 'pair': 16, 'var': None}
+SIZES = {'u8': 1, 'u16': 2, 'u32': 4, 'u64': 8, 'u128': 16, 'u256': 32, 'h256': 32, 'pair': 16, 'var': None, 'nl': None}
 PF = {'u8': 32, 'u16': 16, 'u32': 8, 'u64': 4, 'u128': 2, 'u256': 1}
 USIZE_MAX = 2 ** 64 - 1
 SMALL_NS = [1, 2, 3, 4, 5, 7, 8, 9, 16, 17, 32, 33, 64]
@@ -22,6 +22,9 @@ def pool(kind):
     s = SIZES[kind]
     if kind == 'var':
         return ['.', '00', '01', 'ff', '0000', '00000000', '01020304', 'aabb', '000001']
+    if kind == 'nl':
+        u = lambda *xs: ''.join(int(x).to_bytes(8, 'little').hex() for x in xs)
+        return ['.', u(0), u(1), u(0, 0, 0, 0), u(1, 2, 3, 4, 5), u(*range(64)), u(*([7] * 9)), u(*([0] * 8)), u(2 ** 64 - 1, 0)]
     z = '00' * s
     one = '01' + '00' * (s - 1)
     mx = 'ff' * s
@@ -104,6 +107,8 @@ class H:
         return [r.choice(self.pool) for _ in range(n)]
 
     def maxlen(self, cap=40):
+        if self.cfg.kind == 'nl':
+            cap = min(cap, 12)       # values are up to 512 bytes each: keep the traces small
         return min(self.cfg.n, cap)
 
     # ----- emitters that also track the abstract state -----
@@ -280,7 +285,7 @@ def start(h, d=0, kind=None, n=None):
             h.regs[d] = dict(k='V', v=[v] * cfg.n, p=False, b=cfg.n)
         else:
             h.emit('default_vec h%d' % d)
-            dz = '.' if cfg.kind == 'var' else '00' * SIZES[cfg.kind]
+            dz = '.' if cfg.kind in ('var', 'nl') else '00' * SIZES[cfg.kind]
             h.regs[d] = dict(k='V', v=[dz] * cfg.n, p=False, b=cfg.n)
         return
     if n is None:
@@ -421,6 +426,8 @@ def fam_hash_placement(cfg, rng):
 
 
 def fam_rebase_pairs(cfg, rng):
+    if rng.random() < 0.35:
+        return fam_rebase_adv(cfg, rng)
     h = H(cfg, rng, 'rebase_pairs')
     kind = rng.choice(['L', 'L', 'V']) if cfg.n <= 64 else 'L'
     n = cfg.n if kind == 'V' else rng.choice([h.maxlen(), h.maxlen() // 2, rng.randint(0, h.maxlen()), rng.randint(1, max(1, h.maxlen()))])
@@ -544,6 +551,74 @@ def fam_rebase_pairs(cfg, rng):
         h.rebase_on(1, t) if h.regs[1]['k'] == h.regs[t]['k'] else None
         h.apply(1)
         h.check_fresh(1)
+    return h
+
+
+def fam_rebase_adv(cfg, rng):
+    """The adversarial core of rebasing, at full rate: two independently built lists one of which is the other
+    followed by all-zero values (equal hashes of the common subtrees, different lengths), both fully hashed,
+    optionally with the shorter side brought to the same len() by *pending* pushes of zeros; then rebase in
+    either direction and look at everything."""
+    h = H(cfg, rng, 'rebase_pairs')
+    mx = h.maxlen(40)
+    if mx < 1:
+        return fam_rebase_pairs(cfg, rng)
+    n = rng.randint(0, mx - 1)
+    k = rng.choice([1, 1, 2, rng.randint(1, mx - n), rng.randint(1, mx - n), mx - n])
+    k = max(1, min(k, mx - n))
+    short = h.vals(n, rng.choice(['mixed', 'mixed', 'zero_tail', 'same']))
+    long_ = short + [h.pool[0]] * k
+    o, b = (0, 1) if rng.random() < 0.5 else (1, 0)       # register of the long / short list
+
+    def build(d, vs):
+        if rng.random() < 0.5:
+            h.new_list(d, vs, slow=rng.random() < 0.1)
+        else:
+            h.emit('ssz_list h%d %s' % (d, serialize(cfg.kind, vs)))
+            h.regs[d] = dict(k='L', v=list(vs), p=False, b=len(vs))
+    build(o, long_)
+    build(b, short)
+    if o not in h.regs or b not in h.regs:
+        return h
+    c = rng.random()
+    if c < 0.85:
+        h.hash(0)
+        h.hash(1)
+    elif c < 0.93:
+        h.hash(rng.choice((0, 1)))
+    mode = rng.choice(['plain', 'plain', 'pending_zero', 'pending_zero', 'pending_part', 'overwrite_same'])
+    if mode == 'pending_zero':
+        for _ in range(k):
+            h.push(b, h.pool[0])
+    elif mode == 'pending_part':
+        for _ in range(rng.randint(1, k)):
+            h.push(b, h.pool[0] if rng.random() < 0.8 else None)
+    elif mode == 'overwrite_same' and n:
+        i = rng.randrange(n)
+        h.write(rng.choice((o, b)), i=i, v=short[i], how='set')
+    first = rng.choice((0, 1))
+    h.rebase_on(first, 1 - first)
+    for t in (first, 1 - first):
+        h.emit('iter_from h%d 0' % t)
+    if rng.random() < 0.5:
+        h.rebase_on(1 - first, first)
+    for t in (0, 1):
+        if h.regs[t]['p']:
+            h.apply(t)
+        h.hash(t)
+        h.check_fresh(t)
+    t = rng.choice((0, 1))
+    c = rng.random()
+    if c < 0.35:
+        h.pop_front(t)
+        h.check_fresh(t)
+    elif c < 0.6:
+        h.push(t) if len(h.regs[t]['v']) < cfg.n else h.write(t)
+        h.apply(t)
+        h.check_fresh(t)
+    elif c < 0.8:
+        h.intra(t)
+        h.check_fresh(t)
     return h
 
 
